@@ -32,7 +32,8 @@ PROPS = {
     "C03": {"level": "exploration", "assumptions": MP_ASSUME,
             "parts": [{"engine": "mp", "test": "TestVF_C03", "quick": (4, 1500), "thorough": (16, 25000)}]},
     "C04": {"level": "exploration", "assumptions": MP_ASSUME,
-            "parts": [{"engine": "mp", "test": "TestVF_C04", "quick": (4, 1500), "thorough": (16, 25000)}]},
+            "parts": [{"engine": "mp", "test": "TestVF_C04", "quick": (4, 1500), "thorough": (16, 25000)},
+                      {"engine": "e2e", "test": "TestVF_C04_E2E", "quick": (4, 20), "thorough": (16, 300), "shrinktime": "10s"}]},
     "C20": {
         "level": "exploration",
         "assumptions": BASE_ASSUME + ["the limiter's clock is injected through its nowFunc field; arrival times are non-decreasing"],
@@ -44,7 +45,8 @@ PROPS = {
     },
     "C05": {"level": "exploration", "assumptions": BASE_ASSUME + ["the rate limiter's clock is injected (ratelimit.Clock); tolerance as stated in the property: 1% rate margin and 2 frames of tick quantisation"],
             "parts": [{"engine": "thr", "test": "TestVF_C05", "quick": (4, 1250), "thorough": (16, 30000)},
-                      {"engine": "thr", "test": "TestVF_C05_Composed", "quick": (2, 500), "thorough": (16, 5000)}]},
+                      {"engine": "thr", "test": "TestVF_C05_Composed", "quick": (2, 500), "thorough": (16, 5000)},
+                      {"engine": "e2e", "test": "TestVF_C05_E2E", "quick": (4, 10), "thorough": (16, 120), "shrinktime": "10s"}]},
     "C06": {"level": "exploration", "assumptions": BASE_ASSUME + ["caller-well-formed sessions only (the shape MotionProcessor produces); no lock-step model of the token bucket: budget bounds are derived from forwarded frames and elapsed time"],
             "parts": [{"engine": "thr", "test": "TestVF_C06", "quick": (4, 1250), "thorough": (16, 30000)}]},
     "C07": {"level": "exploration", "assumptions": BASE_ASSUME + ["the reference detector is an independent implementation of the statement; count-thresh >= 1, gap >= 1, 2*edge < min(w,h)"],
@@ -71,7 +73,8 @@ PROPS = {
     "C16": {"level": "exploration", "assumptions": BASE_ASSUME + ["the harness does not own the Go scheduler: interleavings are those produced under generated perturbation (GOMAXPROCS, spins, yields, pauses); the race detector reports races on executions that occur", "ring capacity >= 2 (preview-secs*fps + trigger-frames >= 2)", "the D-Bus transport itself is not run: the service methods are called directly"],
             "parts": [{"engine": "e2e", "race": True, "test": "TestVF_C16", "quick": (4, 40), "thorough": (16, 500), "shrinktime": "15s", "quick_timeout": 600}]},
     "C17": {"level": "exploration", "assumptions": MP_ASSUME,
-            "parts": [{"engine": "mp", "test": "TestVF_C17", "quick": (4, 750), "thorough": (16, 25000)}]},
+            "parts": [{"engine": "mp", "test": "TestVF_C17", "quick": (4, 750), "thorough": (16, 25000)},
+                      {"engine": "e2e", "test": "TestVF_C17_E2E", "quick": (4, 15), "thorough": (16, 250), "shrinktime": "10s"}]},
     "C18": {"level": "exploration", "assumptions": BASE_ASSUME + ["the harness does not own the scheduler: relative speeds of reader and writer are perturbed through GOMAXPROCS, CPU-burning goroutines, sender pacing and chunking; the race detector reports races on executions that occur", "one connection per output directory (file names have one-second resolution)"],
             "parts": [{"engine": "tw", "race": True, "test": "TestVF_C18", "quick": (4, 12), "thorough": (16, 150), "shrinktime": "15s", "quick_timeout": 600}]},
     "C19": {
